@@ -19,7 +19,7 @@ import traceback
 ID = "C16"
 LEVEL = "exploration"
 TECHNIQUE = "differential runtime monitoring: the real Message.set_request_uri / get_request_uri / UndecidedRemote / hostportsplit / hostportjoin driven with generated URIs, option sets, damaged URIs and arbitrary strings, judged by an independent RFC 3986 + RFC 7252 section 6.4/6.5 reference (harness/refuri.py)"
-LEVEL_TEXT = "Held on every generated case: ~4e5 (quick) / ~1.5e7 (thorough) URIs, option sets, damaged URIs, arbitrary strings and host/port pairs over 6 schemes in mixed case, names / escaped names / IPv4 / IPv4 look-alikes / IPv6 in all text forms / zone ids / IPvFuture, all port classes, path and query segments over the whole Unicode range incl. reserved characters and empty segments; says nothing about inputs outside the generators' classes."
+LEVEL_TEXT = "Held on every generated case: ~3e5 (quick) / ~6.4e6 (thorough) URIs, option sets, damaged URIs, arbitrary strings and host/port pairs over 6 schemes in mixed case, names / escaped names / IPv4 / IPv4 look-alikes / IPv6 in all text forms / zone ids / IPvFuture, all port classes, path and query segments over the whole Unicode range incl. reserved characters and empty segments; says nothing about inputs outside the generators' classes."
 LEVEL_NOTE = "Trusted: harness/refuri.py (self-tested each run on the RFC 7252 6.3 / Appendix B and RFC 3986 examples). Judged leniently on purpose: order of lower-casing vs percent-decoding of the host, where the port is stored, explicit default ports, 'coap://h/?' ([] or ['']), IPv4 text with leading zeros, text with raw non-ASCII characters (IRI), incomplete % sequences, ports > 65535."
 RULE = (
     "cases are (a/b) generated valid URIs decomposed by Message(uri=...) and recomposed by get_request_uri(), (c) option sets built on a "
@@ -47,11 +47,17 @@ REQUIRED_MONITORS = {
 }
 EXHAUSTIVE = {"fixed_witnesses": "every entry of FIXED (RFC 7252 6.3 / Appendix B examples, the repository's test URIs, one witness per known mechanism) in every run"}
 
+# "coap://h/a#" (fragment delimiter, empty fragment) and "coap://@h/" (userinfo delimiter, empty userinfo) do have a
+# fragment / userinfo component in RFC 3986 terms (a defined-but-empty component is not an absent one, section 5.2.2 /
+# 6.2.3), so the strict reading of "fragment" / "user info" in the statement demands rejection. Setting this to False
+# demotes both to observed statistics.
+STRICT_EMPTY_COMPONENTS = True
+
 SCHEMES = ["coap", "coaps", "coap+tcp", "coaps+tcp", "coap+ws", "coaps+ws"]
 CLASSES = {"uri": 0, "opt": 1, "bad": 2, "arb": 3, "hp": 4, "fixed": 5}
 PER_SHARD = {
-    "quick": {"uri": 9000, "opt": 4500, "bad": 3500, "arb": 5000, "hp": 3000},
-    "thorough": {"uri": 330000, "opt": 170000, "bad": 120000, "arb": 190000, "hp": 100000},
+    "quick": {"uri": 7000, "opt": 3500, "bad": 2500, "arb": 4000, "hp": 2000},
+    "thorough": {"uri": 150000, "opt": 75000, "bad": 50000, "arb": 85000, "hp": 40000},
 }
 
 
@@ -853,6 +859,9 @@ class Checker:
 
         rep = self.rep
         D = ref.decompose(u, iri=iri)
+        if D.escaped_dots:
+            rep.count("escaped_dot_segment_not_judged")  # RFC 7252 6.4 step 2 vs 5.10.1: no defined outcome
+            return True
         iri_host = iri and any(ord(c) >= 0x80 for c in D.host.text)
         st, res = self.attempt(u)
         outcome = st
@@ -868,6 +877,8 @@ class Checker:
                 rep.count("iri_rejected")
             elif D.host.kind == "ipvfuture":
                 rep.count("ipvfuture_rejected_with_url_error")  # not a destination this library can address: accepted outcome
+            elif D.host.zone is not None and "%" in D.host.text.partition("%25")[2]:
+                rep.count("zone_with_escaped_characters_rejected")  # RFC 6874 allows pct-encoded in a ZoneID; no platform has such zones
             else:
                 rep.violation("decompose/valid-uri-rejected/" + (D.host.kind), "a valid CoAP URI is rejected with %s" % type(res).__name__, dict(wit, exc=repr(res)), case)
                 violated = True
@@ -1077,6 +1088,8 @@ class Checker:
             obs = Obs(res)
             if obs.proxy is not None and refst == ("reject", "foreign-scheme"):
                 pass
+            elif cls in ("fragment-empty", "userinfo-empty") and not STRICT_EMPTY_COMPONENTS:
+                rep.count(cls + "_accepted")
             else:
                 rep.violation("reject/%s-accepted" % cls, "text that is not an acceptable CoAP URI (%s) is accepted" % cls, {"uri": u, "class": cls, "observed": obs.as_dict(), "reference": list(refst)}, case)
         else:
@@ -1109,7 +1122,10 @@ class Checker:
                     a = authority_of(u) or ""
                     if a.rsplit("@", 1)[0] in ("", ":"):
                         cls = "userinfo-empty"
-                rep.violation("reject/%s-accepted" % cls, "text that is not an acceptable CoAP URI (%s) is accepted" % cls, {"uri": u, "class": cls, "observed": obs.as_dict()}, case)
+                if cls in ("fragment-empty", "userinfo-empty") and not STRICT_EMPTY_COMPONENTS:
+                    rep.count(cls + "_accepted")
+                else:
+                    rep.violation("reject/%s-accepted" % cls, "text that is not an acceptable CoAP URI (%s) is accepted" % cls, {"uri": u, "class": cls, "observed": obs.as_dict()}, case)
             elif refst == ("reject", "foreign-scheme"):
                 if obs.proxy != u or obs.uri_host is not None or obs.path or obs.query:
                     rep.violation("foreign-scheme/not-proxy-uri", "a URI of a non-CoAP scheme is neither rejected nor stored verbatim as Proxy-Uri", {"uri": u, "observed": obs.as_dict()}, case)
